@@ -3,42 +3,41 @@ From Coq Require Import ZArith List Bool.
 From C01 Require Import Lang Eval Check Sem.
 Import ListNotations.
 
-Definition call_result_ok (P : prog) (ret : ty) (o : out value) : Prop :=
-  match o with Val v => mem P v ret | Exn e => type_failure e = false | NoFuel => True end.
+(* The three conjuncts of the property, for a checker verdict `accepts`:
+   (1) a call of an accepted program's function on arguments of the declared types never raises
+       TypeError/AttributeError, and its result is a member of the declared return type  (call_ok);
+   (2)+(3) the binder-environment invariant holds at every statement: from an environment satisfying the
+       checker's entry state, execution ends in an environment satisfying the checker's exit state
+       (stmt_ok_at; env_ok requires cur <> None, so a point the checker holds unreachable is never
+       reached), and every expression evaluated in such an environment yields a member of its static
+       type together with correct narrowing maps (expr_ok_at). *)
+Definition do_not_go_wrong (accepts : prog -> bool) : Prop :=
+  forall P, accepts P = true ->
+    (forall g fd vs fuel, lookup (p_funcs P) g = Some fd -> mems P vs (map snd (f_params fd)) ->
+       call_ok P (f_ret fd) (call_fun P fuel g vs)).
 
-(* (1) + result membership.  check_prog is the model of mypy's verdict (tied by correspondence).
+(* mypy's verdict (check_prog, tied to real mypy by correspondence).
    REFUTED on the current tree: Properties.accepted_programs_do_not_go_wrong_refuted (two witnesses). *)
-Definition accepted_programs_do_not_go_wrong : Prop :=
-  forall P g fd vs fuel, check_prog P = true -> lookup (p_funcs P) g = Some fd ->
-    mems P vs (map snd (f_params fd)) -> call_result_ok P (f_ret fd) (call_fun P fuel g vs).
+Definition accepted_programs_do_not_go_wrong : Prop := do_not_go_wrong check_prog.
 
-(* the same for the certifying checker (every loop result re-checked to be a fixed point; isinstance
-   narrowing of a union only when the dropped items share no subclass with the tested class).
-   NOT PROVED (stage 3 is unfinished); monitored by the harness on every certified-accepted program. *)
-Definition certified_programs_do_not_go_wrong : Prop :=
-  forall P g fd vs fuel, check_prog_certified P = true -> lookup (p_funcs P) g = Some fd ->
-    mems P vs (map snd (f_params fd)) -> call_result_ok P (f_ret fd) (call_fun P fuel g vs).
+(* the certifying checker: mypy's algorithm + validation of every merge, every loop result (post-fix-point,
+   covering the entry state) and every isinstance narrowing that drops a union item.
+   PROVED: Properties.certified_programs_do_not_go_wrong (with the invariants (2)+(3) as
+   Properties.stmt_invariant / Properties.expr_sound / Properties.unreachable_never_reached). *)
+Definition certified_programs_do_not_go_wrong : Prop := do_not_go_wrong check_prog_certified.
 
-(* (2)+(3) as the binder-environment invariant: executing a statement from an environment that satisfies
-   the checker's state ends in an environment satisfying the checker's exit state -- in particular a
-   point the checker holds unreachable (cur = None) is never reached -- and never raises a type failure.
-   NOT PROVED. *)
 Definition stmt_invariant : Prop :=
-  forall P ret st s st' en fuel, class_table_ok P -> check_prog_certified P = true ->
-    check_stmt P true ret st s = Ok st' -> env_ok P en st ->
-    match exec P fuel en s with
-    | Val (Normal en') => env_ok P en' st'
-    | Val (Returned v) => mem P v ret
-    | Exn e => type_failure e = false
-    | NoFuel => True
-    end.
+  forall P, check_prog_certified P = true -> forall fuel, stmt_ok_at P fuel.
 
-(* (3) every evaluated expression's value is a member of its static type, calls included.
-   Proved for call-free expressions: Properties.expr_sound_partial. *)
 Definition expr_sound : Prop :=
-  forall P fuel e d fr t m en, class_table_ok P -> check_prog_certified P = true ->
-    infer P true d fr e = Ok (t, m) -> env_decl_ok P en d -> env_frame_ok P en fr ->
-    expr_result_ok P en t m (eval P fuel en e).
+  forall P, check_prog_certified P = true -> forall fuel, expr_ok_at P fuel.
+
+(* mypy's verdict coincides with the certified one when no validation fails.  NOT PROVED (the certifying
+   mode validates merges and loop results by re-computation, which acceptance alone does not give
+   syntactically); the harness measures how many mypy-accepted generated programs are certified. *)
+Definition accepted_and_validated_is_certified : Prop :=
+  forall P, check_prog P = true -> forallb (fun r => match r with Unsup => false | _ => true end) (check_defs P true) = true ->
+    check_prog_certified P = true.
 
 (* stage 1 for mypy's own isinstance narrowing (sm = false).  REFUTED: Properties.narrow_isinstance_refuted *)
 Definition narrow_isinstance_sound_unrestricted : Prop :=
